@@ -416,6 +416,18 @@ def rule_e(ctx: Context, R: Reporter, gc: ClassInfo, hc: ClassInfo):
                                 msg=f"{f.short}: `{unparse(c)[:60]}` converts the sample weights to `{unparse(dt)}`: for integer-valued data the weights are truncated to integers "
                                     f"before normalisation (fractional weights no longer equivalent to replication; all-fractional weights become zero)",
                                 key=f"weights-dtype:{f.short}")
+    # labels are a per-row function of the query: nothing in the clustering module may turn benign underflow
+    # into an exception (the fallback then replaces the rule for the whole batch, so a row's label depends on
+    # which other rows happen to be in the batch)
+    from ..util import errstate_underflow_sites
+
+    for f in ctx.prog.functions.values():
+        if f.module is not gc.module:
+            continue
+        for c in errstate_underflow_sites(f.node):
+            R.check("C15.c", "floating-point underflow is not turned into an exception in the clustering code", False, f, c,
+                    msg=f"{f.short}: `{unparse(c)[:50]}` raises on underflow: exp() of a far-away row underflows harmlessly, but the exception switches the whole batch to the "
+                        f"fallback rule -- the label of a point then depends on the other points it is predicted together with", key=f"errstate-underflow:{f.short}")
     n = 0
     for cls in (gc, hc):
         fit = cls.methods["fit"]
